@@ -3,6 +3,7 @@ import BddVerif.Lemmas.AlgoEqUtilSpec
 import BddVerif.Lemmas.AlgoEqApply
 import BddVerif.Lemmas.AlgoEqTernary
 import BddVerif.Lemmas.AlgoEq2RelPanic
+import BddVerif.Lemmas.AlgoEq3ExprIte
 #print axioms B.Props.C01.apply_pointwise
 #print axioms B.Props.C01.eager_lazy_same
 #print axioms B.Props.C01.apply_canonical_form
@@ -38,3 +39,8 @@ import BddVerif.Lemmas.AlgoEq2RelPanic
 #print axioms B.AlgoEq2Rel.Bdd_iff_eq_canon
 #print axioms B.AlgoEq2Rel.Bdd_and_not_eq_canon
 #print axioms B.AlgoEq2Rel.connectives_panic_mismatch
+#print axioms B.AlgoEq3Expr.ite_function_eq
+#print axioms B.AlgoEq3Expr.Bdd_if_then_else_eq_model
+#print axioms B.AlgoEq3Expr.Bdd_if_then_else_eq_canon
+#print axioms B.AlgoEq3Expr.Bdd_if_then_else_eq_model_driver
+#print axioms B.AlgoEq3Expr.Bdd_if_then_else_panics_mismatch
